@@ -51,7 +51,8 @@ func init() {
 	register(&Prop{
 		ID: "C02",
 		Gen: func(r *rt.Rand, tier string, idx int) *world.Scenario {
-			return genWrites(r, tier, idx, writeOpts{reads: true})
+			// (every fourth run with a client compacting at, below and ahead of the committed revision)
+			return genWrites(r, tier, idx, writeOpts{reads: true, compactor: idx%4 == 1})
 		},
 		Epilogue: writesEpilogue,
 		Check:    checkC02,
